@@ -262,3 +262,113 @@ func addressTaken(p *Program, fn *ssa.Function) bool {
 	}
 	return false
 }
+
+// checkNoExportedTreeAccess (C19.R12): the parse tree of a template is trusted text in parsed form. An exported
+// field of an exported type of package template through which a client reaches a text/template or
+// text/template/parse object lets it add nodes with run-time text to a template whose output ExecuteToHTML wraps
+// as safehtml.HTML.
+func checkNoExportedTreeAccess(p *Program, r *Report, rule string) {
+	pk := p.Pkg("template")
+	if pk == nil {
+		r.Undec(rule, "template", "", "package not found")
+		return
+	}
+	foreign := func(t types.Type) string {
+		seen := map[types.Type]bool{}
+		var walk func(t types.Type, depth int) string
+		walk = func(t types.Type, depth int) string {
+			if depth > 4 || seen[t] {
+				return ""
+			}
+			seen[t] = true
+			switch u := t.(type) {
+			case *types.Pointer:
+				return walk(u.Elem(), depth+1)
+			case *types.Slice:
+				return walk(u.Elem(), depth+1)
+			case *types.Map:
+				if s := walk(u.Key(), depth+1); s != "" {
+					return s
+				}
+				return walk(u.Elem(), depth+1)
+			case *types.Named:
+				if o := u.Obj(); o.Pkg() != nil && (o.Pkg().Path() == "text/template" || o.Pkg().Path() == "text/template/parse") {
+					if _, isStruct := u.Underlying().(*types.Struct); isStruct {
+						return o.Pkg().Path() + "." + o.Name()
+					}
+				}
+			}
+			return ""
+		}
+		return walk(t, 0)
+	}
+	n := 0
+	sc := pk.Types.Scope()
+	for _, name := range sc.Names() {
+		o, ok := sc.Lookup(name).(*types.TypeName)
+		if !ok || !o.Exported() || o.IsAlias() {
+			continue
+		}
+		st, ok := o.Type().Underlying().(*types.Struct)
+		if !ok {
+			continue
+		}
+		for i := 0; i < st.NumFields(); i++ {
+			f := st.Field(i)
+			if !f.Exported() {
+				continue
+			}
+			n++
+			c := "template." + name + "." + f.Name() + "#exported-field"
+			what := foreign(f.Type())
+			r.Check(what == "", rule, c, p.Pos(f.Pos()), "the exported field does not expose a text/template object", "the exported field gives clients the live "+what+" of the template: nodes with run-time text appended to it (t."+f.Name()+".Root.Nodes = append(…, &parse.TextNode{Text: []byte(s)})) are executed as trusted template text and returned by ExecuteToHTML as safehtml.HTML")
+		}
+	}
+	if n == 0 {
+		r.OK(rule, "template#exported-fields", "", "no exported struct field in package template")
+	}
+}
+
+// checkExportedTreeOnlyTested (C19.R13): what a client stores in the exported field Template.Tree must never become
+// what is executed: the library may write the field and test it against nil, nothing else.
+func checkExportedTreeOnlyTested(p *Program, r *Report, rule string) {
+	n := 0
+	for _, fn := range p.SrcFuncs() {
+		root := fn
+		for root.Parent() != nil {
+			root = root.Parent()
+		}
+		if root.Pkg == nil || root.Pkg.Pkg.Path() != modulePath+"/template" {
+			continue
+		}
+		for _, b := range fn.Blocks {
+			for _, in := range b.Instrs {
+				ld, ok := in.(*ssa.UnOp)
+				if !ok {
+					continue
+				}
+				fa, ok := ld.X.(*ssa.FieldAddr)
+				if !ok || !isNamed(fa.X.Type(), pkgTemplate, "Template") || fieldName(fa.X.Type(), fa.Field) != "Tree" {
+					continue
+				}
+				n++
+				okUse := true
+				for _, ref := range *ld.Referrers() {
+					bo, isCmp := ref.(*ssa.BinOp)
+					if isCmp && (isNilConst(bo.X) || isNilConst(bo.Y)) {
+						continue
+					}
+					if _, isDbg := ref.(*ssa.DebugRef); isDbg {
+						continue
+					}
+					okUse = false
+				}
+				c := strings.TrimPrefix(fnName(fn), modulePath+"/") + "#reads-exported-tree"
+				r.Check(okUse, rule, c, p.Pos(in.Pos()), "the exported Tree field is only tested against nil", "the exported field Template.Tree is read for more than a nil test: a tree that a client stored there (tmpl.Tree = treeParsedFromRuntimeText) becomes part of what is executed")
+			}
+		}
+	}
+	if n == 0 {
+		r.OK(rule, "template#reads-exported-tree", "", "the exported Tree field is never read by the library")
+	}
+}
